@@ -294,7 +294,7 @@ def check(r) -> list[Fail]:
                     jobmap(job, src, dst, cache_dir=cache_dir, scratch_dir=scratch, n_workers=[4, 1, 2, 4][ri % 4 if r.get("posargs") else 0],
                            # job arguments handed over positionally (args=) in some histories, by keyword in the others
                            **({"args": (planroot, arg), "kwargs": {"broken": tuple(broken) + tuple("late:" + u for u in late), "farg": farg, "earg": earg}} if r.get("posargs") else
-                              {"kwargs": {"planroot": planroot, "arg": arg, "broken": tuple(broken) + tuple("late:" + u for u in late), "farg": farg, "earg": earg}}), progress=False, log_level="critical", **({"strict_hash": False} if run.get("lax") else {}))
+                              {"kwargs": {"planroot": planroot, "arg": arg, "broken": tuple(broken) + tuple("late:" + u for u in late), "farg": farg, "earg": earg}}), progress=False, log_level=run.get("loglevel", "critical"), **({"strict_hash": False} if run.get("lax") else {}))
             except Exception as e:
                 s = exc_sig(e)
                 if s is None:
@@ -398,6 +398,8 @@ def classify(r):
         lab.append("only_env_value_changes_somewhere")
     if any(run.get("lax") for run in r["runs"]):
         lab.append("strict_hash_off_somewhere")
+    if any(run.get("loglevel") == "debug" for run in r["runs"]):
+        lab.append("debug_logging_somewhere")
     lab.append("job_args=positional" if r.get("posargs") else "job_args=keyword")
     if r["n_foreign"]:
         lab.append("foreign_destination_keys")
@@ -431,7 +433,7 @@ def strat(tier):
     planv = st.sampled_from(["ok", "ok", "fail", "okat2", "okat3", "nofile", "prepfail", "prepfail1", "okempty"])
     item = st.fixed_dictionaries({"nconf": st.integers(1, 3), "plans": st.lists(planv, min_size=1, max_size=3)})
     ev = st.one_of(st.tuples(st.just("delete"), st.integers(0, 20)).map(list), st.tuples(st.just("truncate"), st.integers(0, 20)).map(list), st.tuples(st.just("pollute"), st.integers(0, 20), st.integers(0, 20)).map(list))
-    run = st.fixed_dictionaries({"arg": st.sampled_from([0, 0, 0, 1, 2]), "farg": st.sampled_from([0, 0, 0, 1]), "earg": st.sampled_from([0, 0, 0, 1]), "cache_events": st.lists(ev, max_size=2), "new_dest": st.sampled_from([False, False, True]), "lax": st.sampled_from([False, False, False, True]),
+    run = st.fixed_dictionaries({"arg": st.sampled_from([0, 0, 0, 1, 2]), "farg": st.sampled_from([0, 0, 0, 1]), "earg": st.sampled_from([0, 0, 0, 1]), "cache_events": st.lists(ev, max_size=2), "new_dest": st.sampled_from([False, False, True]), "lax": st.sampled_from([False, False, False, True]), "loglevel": st.sampled_from(["critical", "critical", "debug", "info"]),
                                  "broken": st.one_of(st.just([]), st.just([]), st.lists(st.integers(0, 20), min_size=1, max_size=2)),
                                  "late": st.one_of(st.just([]), st.just([]), st.lists(st.integers(0, 20), min_size=1, max_size=2))})
     return st.fixed_dictionaries({
@@ -447,6 +449,6 @@ def strat(tier):
 LEGS = [
     Leg("hist", check, classify, strategy=strat, n={"quick": 48, "thorough": 600}, shards={"quick": 16, "thorough": 16}, timeout={"quick": 900, "thorough": 14000},
         rule="generated histories: 2-4/5 items (single molecules or ensembles of 1-3 conformers) with per-unit plans {ok, ok with an EMPTY return file, fail, ok at 2nd/3rd attempt, omit return file, first (unnamed) command fails always / once}, 2-3/4 jobmap runs whose arguments change the command line, only the content of an input file, or only the value of an environment variable (all must change the hash), "
-             "0-2 pre-populated source keys, 0-2 foreign destination keys, cache events (delete one output, copy another input's output into a slot) between runs, optionally a fresh empty destination with the old cache directory, runs in which the program of some unit cannot be started (the runner dies before writing an output), strict (needs return file) and lenient (stdout only) post-processors, strict_hash on (default) / off per run, "
+             "0-2 pre-populated source keys, 0-2 foreign destination keys, cache events (delete one output, copy another input's output into a slot) between runs, optionally a fresh empty destination with the old cache directory, runs in which the program of some unit cannot be started (the runner dies before writing an output), strict (needs return file) and lenient (stdout only) post-processors, strict_hash on (default) / off per run, log level critical / info / debug per run, "
              "single and vectorised jobs (reduce step consuming all per-conformer results or only the first); every job is a real _molli_run launch; evaluations = jobmap runs; non-trivial = a rerun after a failure, or an argument change with a populated cache"),
 ]
